@@ -5,8 +5,22 @@ stdin: one JSON case per line; stdout: one JSON record per line."""
 import sys, json, operator, os
 import recorder
 MOD = os.environ.get("VERIF_BACKEND_MODULE", "pysnark.nobackend")
-R = recorder.install(MOD)
-import pysnark.runtime as rt
+REAL = os.environ.get("VERIF_REAL_BACKEND")          # run on a real dict-style backend (snarkjs, zkinterface, ...) instead of the recorder
+if REAL:
+    os.environ["PYSNARK_BACKEND"] = REAL
+    import pysnark.runtime as rt
+    rt.autoprove = False
+    class _Adapter:
+        def __init__(s, b): s.b = b; s.P = b.get_modulus()
+        def reset(s, p):
+            s.b.privvals.clear(); s.b.pubvals.clear(); s.b.constraints.clear()
+        pubs = property(lambda s: s.b.pubvals); privs = property(lambda s: s.b.privvals)
+        cons = property(lambda s: [tuple(c) for c in s.b.constraints])
+        kinds = property(lambda s: ['x'] * len(s.b.pubvals) + ['w'] * len(s.b.privvals))
+    R = _Adapter(rt.backend)
+else:
+    R = recorder.install(MOD)
+    import pysnark.runtime as rt
 from pysnark.runtime import PrivVal, PubVal, ConstVal, LinComb
 import pysnark.boolean as pb
 from pysnark.boolean import LinCombBool, PrivValBool, PubValBool
@@ -14,7 +28,9 @@ import pysnark.fixedpoint as fx
 from pysnark.fixedpoint import LinCombFxp, PrivValFxp, PubValFxp
 import pysnark.branching as br
 import digest as D
-assert rt.backend is R, "recorder not selected as backend"
+assert REAL or rt.backend is R, "recorder not selected as backend"
+ONE0 = LinComb.ONE          # the constant-one object created at import
+ZERO0 = LinComb.ZERO
 FULL = os.environ.get("VERIF_FULL_TRACE") == "1"
 
 BIN = {"add": operator.add, "sub": operator.sub, "mul": operator.mul, "truediv": operator.truediv,
@@ -26,7 +42,7 @@ UN = {"neg": operator.neg, "pos": operator.pos, "abs": abs, "invert": operator.i
 INP = {"priv": PrivVal, "pub": PubVal, "privbool": PrivValBool, "pubbool": PubValBool, "privfxp": PrivValFxp, "pubfxp": PubValFxp}
 
 
-def items(lc): return list(lc.d.items())
+def items(lc): return list((lc.d if hasattr(lc, "d") else lc.lc).items())
 
 
 def out_val(v, outs):
@@ -67,7 +83,7 @@ def coherent(v, p, w):
     bad = []
     def chk(x):
         lc = x if isinstance(x, LinComb) else x.lc
-        if (lc.value - sum(c * w(k) for k, c in lc.lc.d.items())) % p != 0: bad.append(repr(x))
+        if (lc.value - sum(c * w(k) for k, c in items(lc.lc))) % p != 0: bad.append(repr(x))
     def walk(x):
         if isinstance(x, (LinComb, LinCombBool, LinCombFxp)): chk(x)
         elif isinstance(x, (list, tuple)):
@@ -109,19 +125,26 @@ def run_stmts(prog, regs, ins, outs, st):
                 f = getattr(recv, name)
                 v = f(*args) if k is None else f(*(args + [k]))
         else: raise Exception("bad stmt " + op)
+        # no operation may alter an existing object (operands are shared): compare with the snapshots
+        for q, sv in st["snap"].items():
+            if q in regs and q != d and plain(regs[q]) != sv[0]:
+                st["mutated"].append((st["pc"], q, sv[0], plain(regs[q])))
+                st["snap"][q] = (plain(regs[q]),)
         regs[d] = v
+        st["snap"][d] = (plain(v),)
         st["vals"].append((st["pc"], plain(v)))
         out_val(v, outs)
-        st["coh"] += coherent(v, R.P, st["w"])
+        for q in regs: st["coh"] += coherent(regs[q], R.P, st["w"])
 
 
 def run_case(case):
     cfg = case["cfg"]; p = cfg["p"]
     R.reset(p)
-    rt.guard = None; rt._ignore_errors = bool(cfg["ign"]); LinComb.ONE = LinComb.ONE_SAFE
+    if REAL: p = R.P
+    rt.guard = None; rt._ignore_errors = bool(cfg["ign"]); LinComb.ONE = ONE0
     rt.bitlength = cfg["n"]; fx.resolution = cfg["res"]
     w = lambda k: 1 if k == 0 else (R.pubs[k - 1] if k > 0 else R.privs[-k - 1])
-    outs = []; st = {"pc": 0, "coh": [], "w": w, "vals": []}
+    outs = []; st = {"pc": 0, "coh": [], "w": w, "vals": [], "snap": {}, "mutated": []}
     exn = None; gobs = None
     try:
         run_stmts(case["prog"], {}, case["ins"], outs, st)
@@ -138,13 +161,27 @@ def run_case(case):
     # C01 oracle: every constraint satisfied by the recorded witness
     unsat = []
     for i, (a, b, c) in enumerate(R.cons):
-        ev = lambda l: sum(cf * w(k) for k, cf in l.d.items())
+        ev = lambda l: sum(cf * w(k) for k, cf in items(l))
         if (ev(a) * ev(b) - ev(c)) % p != 0: unsat.append(i)
     rec = {"id": case.get("id"), "exn": exn, "msg": st.get("msg"), "nvars": len(R.kinds), "ncons": len(cons), "npub": len(R.pubs),
            "dig": [D.digest_vars(p, R.kinds, R.pubs, R.privs), D.digest_cons(p, cons), D.digest_outs(p, outs), D.digest_exn(p, exn, cur)],
-           "unsat": unsat[:5], "incoherent": st["coh"][:5], "floatbad": st.get("floatbad", False), "pc": st["pc"],
+           "unsat": unsat[:5], "incoherent": st["coh"][:5], "mutated": st["mutated"][:5], "floatbad": st.get("floatbad", False), "pc": st["pc"],
            "shape": [D.digest_cons(p, cons), "".join(R.kinds), D.digest_outs(p, [(t, 0, l) for t, v, l in outs if t > 0])],
            "vals": st["vals"][:300]}
+    if REAL and case.get("prove"):
+        # let the real backend write its artefacts for this trace, in a scratch directory
+        import tempfile, shutil, io, contextlib
+        d = tempfile.mkdtemp(prefix="pysnark-verif-prove-")
+        cwd = os.getcwd()
+        try:
+            os.chdir(d)
+            with contextlib.redirect_stdout(io.StringIO()), contextlib.redirect_stderr(io.StringIO()):
+                rt.backend.prove()
+            rec["files"] = {fn: open(os.path.join(d, fn), "rb").read().hex() for fn in sorted(os.listdir(d))}
+        except Exception as e:
+            rec["prove_error"] = "%s: %s" % (type(e).__name__, e)
+        finally:
+            os.chdir(cwd); shutil.rmtree(d, ignore_errors=True)
     if FULL or case.get("full"):
         rec["trace"] = {"kinds": "".join(R.kinds), "pubs": R.pubs, "privs": R.privs, "cons": cons, "outs": outs, "globals": cur}
     return rec
